@@ -54,18 +54,22 @@ Two(a, b) ==
 EdgeFile == IF "VERIF_EDGES" \in DOMAIN IOEnv THEN IOEnv.VERIF_EDGES ELSE ""
 Emit(rec) == IF EdgeFile = "" THEN TRUE ELSE CSVWrite("%1$s", <<ToJson(rec)>>, EdgeFile)
 
-Init == phase = "go" /\ cur \in ({[t |-> "one", s |-> s, b |-> <<>>] : s \in Strs(MaxLen1)}
-                                 \cup {[t |-> "two", s |-> a, b |-> b] : a \in Strs(MaxLen2), b \in Strs(MaxLen2)}
-                                 \cup {[t |-> "two", s |-> a, b |-> b] : a \in RelOperands, b \in RelOperands}
-                                 \cup {[t |-> "match", s |-> p, b |-> n] : p \in PStrs(MaxLen2 + 1, PatAlphabet), n \in PStrs(MaxLen2 + 1, {"a", "b", "/"})}
-                                 \cup {[t |-> "match", s |-> p, b |-> n] : p \in MPats(2), n \in MNames})
+\* One initial state per FIRST operand (TLC builds the set of initial states on a single thread, so it is kept
+\* small); the step of each state emits the tables for every second operand, on all workers in parallel.
+SimpleNames == PStrs(MaxLen2 + 1, {"a", "b", "/"})
+Init == phase = "go" /\ cur \in ({[t |-> "one", s |-> s] : s \in Strs(MaxLen1)}
+                                 \cup {[t |-> "two", s |-> a] : a \in Strs(MaxLen2) \cup RelOperands}
+                                 \cup {[t |-> "match", s |-> p] : p \in PStrs(MaxLen2 + 1, PatAlphabet) \cup MPats(2)})
+Seconds(a) == (IF a \in Strs(MaxLen2) THEN Strs(MaxLen2) ELSE {}) \cup (IF a \in RelOperands THEN RelOperands ELSE {})
+NamesFor(p) == (IF p \in PStrs(MaxLen2 + 1, PatAlphabet) THEN SimpleNames ELSE {}) \cup (IF p \in MPats(2) THEN MNames ELSE {})
 Next == /\ phase = "go" /\ phase' = "done" /\ cur' = cur
         /\ CASE cur.t = "one" ->
                   /\ Emit([t |-> "one", r |-> One("linux", cur.s)])
                   /\ (IF InWinDomain(cur.s) THEN Emit([t |-> "one", r |-> One("windows", cur.s)]) ELSE TRUE)
-             [] cur.t = "two" -> Emit([t |-> "two", r |-> Two(cur.s, cur.b)])
-             [] cur.t = "match" -> Emit([t |-> "match", p |-> cur.s, n |-> cur.b, m |-> MatchL(cur.s, cur.b),
-                                         lm |-> Match("linux", cur.s, cur.b), wm |-> Match("windows", cur.s, cur.b)])
+             [] cur.t = "two" -> \A b \in Seconds(cur.s) : Emit([t |-> "two", r |-> Two(cur.s, b)])
+             [] cur.t = "match" -> \A n \in NamesFor(cur.s) :
+                                      Emit([t |-> "match", p |-> cur.s, n |-> n, m |-> MatchL(cur.s, n),
+                                            lm |-> Match("linux", cur.s, n), wm |-> Match("windows", cur.s, n)])
 Spec == Init /\ [][Next]_vars
 
 \* algebraic laws checked on the specification itself
@@ -74,7 +78,7 @@ CleanIdempotent == cur.t = "one" => (Clean("linux", Clean("linux", cur.s)) = Cle
                                             => Clean("windows", Clean("windows", cur.s)) = Clean("windows", cur.s)))
 \* the simple matcher used by the enumeration specification agrees with the full one where both apply
 MatchAgrees == (cur.t = "match" /\ \A i \in DOMAIN cur.s : cur.s[i] \in PatAlphabet) =>
-                   (Match("linux", cur.s, cur.b) = IF MatchL(cur.s, cur.b) THEN "true" ELSE "false")
+                   \A n \in SimpleNames : Match("linux", cur.s, n) = IF MatchL(cur.s, n) THEN "true" ELSE "false"
 SplitReassembles == cur.t = "one" => (Split("linux", cur.s).dir \o Split("linux", cur.s).file = cur.s
                                         /\ Split("windows", cur.s).dir \o Split("windows", cur.s).file = cur.s)
 =============================================================================
